@@ -1,5 +1,5 @@
 # Stages for NameGate.tla (C04): invalid names are refused by every file system and change nothing.
-NAMEGATE_ADAPTERS = ["mem", "kvplain", "oshp", "mnt:a", "subview:d", "cache", "tar"]
+NAMEGATE_ADAPTERS = ["mem", "kvplain", "oshp", "mnt:a", "subview:d", "cache", "tar", "tarcut"]
 
 
 def namegate_stages(ctx):
